@@ -184,10 +184,11 @@ def _job(job):
     os.makedirs(wd, exist_ok=True)
     out = os.path.join(wd, "o.pqr")
     open(os.path.join(wd, "in.pdb"), "w").write(job["text"])
-    r = runner.run(job["args"] + [os.path.join(wd, "in.pdb"), out], groups={"atoms", "stages", "log", "hbsched"}, out_path=out)
+    r = runner.run(job["args"] + [os.path.join(wd, "in.pdb"), out], groups={"atoms", "stages", "log", "hbsched", "patch"}, out_path=out)
     tr = r["tracer"]
     res = {"ok": r["ok"], "exc": r["exc_type"], "msg": str(r["exc"])[:100] if r["exc"] else ""}
     # the scheduler of the hydrogen-bond optimisation (HbondSched.tla): every call of optimize_hydrogens of this run
+    res["patches"] = list(getattr(tr, "patch_calls", []))
     res["hbs"] = [{k: c[k] for k in ("n", "hb", "fixed0", "fl0", "ev", "stage", "kinds")} for c in getattr(tr, "hbsched_calls", [])
                   if c.get("n") and "error" not in c and c["n"] <= 400 and len(c["ev"]) <= 4000]
     if r["ok"]:
@@ -264,6 +265,43 @@ def _job(job):
             unobservable=tr.unobservable)
     shutil.rmtree(wd, ignore_errors=True)
     return res
+
+
+def patch_conformance(ctx, jobs, res):
+    """Every run-time patch application of the corpus runs, on the level of names, against ApplyPatch.tla (distinct calls only).
+    Conformance, drift only; a corrupted copy (one removed atom left on the residue) must be flagged on every run."""
+    seen, calls = set(), []
+    for j, o in zip(jobs, res):
+        for c in o.get("patches", []) or []:
+            k = json.dumps([c[x] for x in ("patch", "ref0", "res0", "add", "rem", "alt", "ref1", "res1")])
+            if k not in seen:
+                seen.add(k)
+                calls.append(dict(c, id=len(calls) + 1, what=f"{j['what']} {' '.join(j['args'])}: {c['patch']} on {c['res']} [{c['stage']}]"))
+    if not calls:
+        return
+    probe = next((c for c in calls if c["rem"] and set(c["rem"]) & set(c["res0"])), None)
+    allc = list(calls)
+    if probe is not None:
+        bad = dict(probe, id=len(calls) + 1, res1=probe["res1"] + [next(n for n in probe["rem"] if n in probe["res0"])], what="corrupted copy")
+        allc.append(bad)
+    tf = core.write_json(os.path.join(ctx.work, "patches.json"), [{k: c[k] for k in ("id", "ref0", "res0", "add", "rem", "alt", "ref1", "res1")} for c in allc])
+    r = core.run_tlc("ApplyPatch", "ApplyPatch.cfg", ctx.work, workers=4, env={"TRACE_FILE": tf}, timeout=1200, heap="6g")
+    core.need_ok(r, "ApplyPatch")
+    ctx.add_tlc(r, "run-time patch applications (names), conformance")
+    v = {x[1]: x[2] for x in r.printed if isinstance(x, list) and x and x[0] == "T"}
+    if len(v) != len(allc):
+        raise core.MachineryError(f"ApplyPatch: {len(v)} verdicts for {len(allc)} calls; {r.unparsed[:2]} {r.out[-500:]}")
+    if probe is not None and "NoRemovedAtomLeft" not in v[allc[-1]["id"]]:
+        raise core.MachineryError("ApplyPatch accepted a corrupted copy")
+    flagged = [c for c in calls if v[c["id"]]]
+    kinds = {}
+    for c in calls:
+        kinds[c["patch"]] = kinds.get(c["patch"], 0) + 1
+    ctx.extra["apply_patch"] = {"distinct_calls": len(calls), "flagged": len(flagged), "patches_seen": kinds}
+    for c in flagged[:8]:
+        ctx.drift.append({"apply_patch_differs_from_ApplyPatch_tla": c["what"], "clauses": sorted(v[c["id"]]),
+                          "rem": c["rem"], "res0": c["res0"], "res1": c["res1"]})
+    ctx.traces += len(calls)
 
 
 def hbsched_conformance(ctx, jobs, res):
@@ -373,6 +411,7 @@ def run(ctx):
     jobs = corpus(ctx, rng)
     res = core.pmap(_job, jobs, chunksize=1)
     hbsched_conformance(ctx, jobs, res)
+    patch_conformance(ctx, jobs, res)
     traces = []
     for j, o in zip(jobs, res):
         ctx.evaluations += 1
